@@ -121,6 +121,10 @@ def _work(spec):
         try:
             H = F.build(spec)
             n, v = check(H, spec)
+            F.detour(H)
+            n2, v2 = check(H, spec)
+            n += n2
+            v = list(v) + [(m, "[same object re-evaluated after remove+re-add of its first node and edge] " + msg) for m, msg in v2]
             # the closure of this hypergraph (all non-empty subsets of every edge) as a downward-closed input
             cl = set()
             for _, m in spec["edges"]:
